@@ -11,10 +11,11 @@ props = [json.loads(l)["id"] for l in (V / "properties.jsonl").read_text().split
 na_reasons = {}
 if (V / "manifest.d" / "NA.json").exists():
     na_reasons = json.loads((V / "manifest.d" / "NA.json").read_text())
+ready = set((V / "manifest.d" / "READY").read_text().split()) if (V / "manifest.d" / "READY").exists() else set()
 checks, na = [], []
 for pid in props:
     f = V / "manifest.d" / f"{pid}.json"
-    if f.exists() and pid not in na_reasons:
+    if f.exists() and pid not in na_reasons and pid in ready:
         frag = json.loads(f.read_text())
         c = {
             "property_id": pid,
